@@ -2,6 +2,9 @@
 // bytes, num_rational, std::time::Duration, thiserror's generated `From<io::Error>`.
 // Nothing in this directory is repository code.  See DESIGN.md section 2.2.
 
+// 64-bit target (the sandbox and every supported deployment of the crate's test-suite): usize is 8 bytes
+global size_of usize == 8;
+
 // ---------------------------------------------------------------- errors (src/error.rs is re-declared;
 // the extractor compares the variant list with /repo/src/error.rs on every run)
 pub struct IoErr { pub kind: u8 }
